@@ -395,6 +395,11 @@ func implicitEnd(n ast.Node) bool {
 		return n.Implicit
 	case *ast.LabeledStmt:
 		return implicitEnd(n.Stmt)
+	case *ast.CaseClause:
+		// a clause ends with its last statement
+		return len(n.Body) > 0 && implicitEnd(n.Body[len(n.Body)-1])
+	case *ast.CommClause:
+		return len(n.Body) > 0 && implicitEnd(n.Body[len(n.Body)-1])
 	}
 	return false
 }
